@@ -188,6 +188,34 @@ def runHead : List Act → Nat → Bool → Rec → Rec
   | .writeHeader c :: as, sz, wr, r => runHead as sz true (if wr then r else r.writeHeader c)
   | .write n :: as, sz, _, r => runHead as (sz + n) true { r with hdr := r.hdr.set hContentLength (natToBytes (sz + n)) }
 
+/-- The recovery function of the harness (`WithRecovery(f)`, `f` records the value and writes status 500). -/
+def defaultRecActs : List Act := [.writeHeader 500]
+
+/-- `http.Error(w, text, code)`: deletes Content-Length, sets Content-Type and X-Content-Type-Options, writes the header
+and `text ++ "\n"`. The bundled options `WithStatusRecovery/WithWriteRecovery/WithLogRecovery/WithSLogRecovery(status, …)`
+call it with `http.StatusText(status)`; `textLen` is the length of that text. -/
+def httpErrorActs (code textLen : Nat) : List Act :=
+  [.delHeader hContentLength,
+   .setHeader hContentType (bytesOfString "text/plain; charset=utf-8"),
+   .setHeader (bytesOfString "X-Content-Type-Options") (bytesOfString "nosniff"),
+   .writeHeader code, .write (textLen + 1)]
+
+/-- Length of `http.StatusText(code)` for the codes the harness configures (net/http's table is outside the model; an
+unknown code has the empty text). -/
+def statusTextLen : Nat → Nat
+  | 200 => 2      -- OK
+  | 400 => 11     -- Bad Request
+  | 404 => 9      -- Not Found
+  | 418 => 12     -- I'm a teapot
+  | 500 => 21     -- Internal Server Error
+  | 503 => 19     -- Service Unavailable
+  | _ => 0
+
+/-- The recorder after the recovery function ran on the writer it was handed: the plain writer, or the `headResponse`
+wrapper when the panic happened below it (the deferred closure captures `w` by reference). -/
+def recRec (acts : List Act) (headWrap : Bool) (hs : Hdr) : Rec :=
+  if headWrap then runHead acts 0 false { hdr := hs } else runGet acts { hdr := hs }
+
 /-! ## TRACE helper -/
 
 /-- `html.EscapeString`. -/
